@@ -48,8 +48,8 @@ type PortBlock struct {
 	PublicIP      uint32
 	PortStart     uint16
 	PortEnd       uint16
-	NextPort      uint16
-	PortsInUse    uint16
+	NextPort      uint32 // u32 in the eBPF struct (atomic ops)
+	PortsInUse    uint32 // u32 in the eBPF struct (atomic ops)
 	AllocatedAt   uint64
 	SubscriberID  uint32
 	BlockSizeLog2 uint8
@@ -453,7 +453,7 @@ func (m *Manager) AllocateNAT(privateIP net.IP) (*Allocation, error) {
 				PublicIP:      ipToKey(selectedPool.PublicIP),
 				PortStart:     portStart,
 				PortEnd:       portEnd,
-				NextPort:      portStart,
+				NextPort:      uint32(portStart),
 				PortsInUse:    0,
 				AllocatedAt:   uint64(time.Now().UnixNano()),
 				SubscriberID:  subscriberID,
